@@ -436,8 +436,11 @@ func typesFor(where string, depth int, cfg Cfg) []string {
 var ptrTypes = []string{"str", "bool", "int", "int8", "int16", "int32", "int64", "uint", "uint8", "uint16", "uint32", "uint64", "float32", "float64", "time", "dur"}
 
 func (g *G) errInto(v *Val, label string) {
-	v.EK = rapid.SampledFrom([]string{"plain", "plain", "plain", "nil", "typednil", "objerr"}).Draw(g.t, label+".ek")
-	if v.EK == "plain" || v.EK == "objerr" {
+	v.EK = rapid.SampledFrom([]string{"plain", "plain", "plain", "nil", "typednil", "objerr", "stacked"}).Draw(g.t, label+".ek")
+	if v.EK == "stacked" && g.cfg.C08 {
+		v.EK = "plain" // stack frames differ between the two processes of the differential run
+	}
+	if v.EK == "plain" || v.EK == "objerr" || v.EK == "stacked" {
 		v.S = g.Bytes(label + ".et")
 	}
 }
@@ -723,7 +726,10 @@ func (g *G) Settings() Settings {
 	switch g.focus {
 	case "errors":
 		s.ErrMarshal = rapid.SampledFrom([]string{"", "string", "obj", "othererr", "nil", "struct"}).Draw(t, "set.em2")
-		s.StackMarshal = rapid.SampledFrom([]string{"nil", "string", "error", "obj", "frames", "nilerr"}).Draw(t, "set.sm2")
+		s.StackMarshal = rapid.SampledFrom([]string{"nil", "string", "error", "obj", "frames", "nilerr", "pkgerrors", "pkgerrors"}).Draw(t, "set.sm2")
+		if g.cfg.C08 && s.StackMarshal == "pkgerrors" {
+			s.StackMarshal = "frames"
+		}
 	case "time":
 		if !g.cfg.C08 {
 			s.TimeFormat = rapid.SampledFrom([]string{"UNIX", "UNIXMS", "UNIXMICRO", "UNIXNANO", "RFC3339Nano", "RFC3339"}).Draw(t, "set.tf2")
